@@ -5,7 +5,7 @@
    which a defensive copy is missing.                                        *)
 From Coq Require Import NArith ZArith String Bool Arith List Lia.
 From V Require Import Model.Heap Model.HeapOps Model.HeapApi Model.HeapRun Spec.HeapSpec.
-From V Require Import Proofs.HeapFacts Proofs.HeapInterp Proofs.HeapApiFacts Proofs.HeapStoreFacts.
+From V Require Import Proofs.HeapFacts Proofs.HeapInterp Proofs.HeapApiFacts Proofs.HeapStoreFacts Proofs.HeapExec.
 From V Require Import Gen.HeapWorld.
 Import ListNotations.
 Open Scope nat_scope.
@@ -122,6 +122,37 @@ Proof. intros. eapply deepcopy_disjoint_l; eauto. Qed.
 
 Lemma all_new_disjoint_l : forall h h' c v l, all_new h h' c -> reaches h v l -> ~ reaches h' c l.
 Proof. intros h h' c v l D R R'. apply reaches_lt in R. apply D in R'. lia. Qed.
+
+(* ---- the whole operation language, and histories ---- *)
+Lemma unchanged_ns_values_l : forall h h', unchanged_ns h h' -> values_kept h h'.
+Proof. intros h h' U n v t H. eapply value_frame; eauto. Qed.
+
+Lemma exec_frame_l : forall W o e h h' r,
+  public_op o = true -> exec as_written W o e h = (h', r) -> unchanged_ns h h'.
+Proof. intros W o e h h' r Hp H. eapply exec_kept; eauto. apply safe_as_written. Qed.
+
+Lemma history_l : forall W ops e h e' h',
+  forallb public_op ops = true -> run_state as_written W ops e h = (e', h') ->
+  unchanged_ns h h' /\ values_kept h h' /\ exists e2, e' = e ++ e2.
+Proof.
+  intros W ops e h e' h' Hp H.
+  assert (K : kept h h') by (eapply run_state_kept; eauto; apply safe_as_written).
+  split; [apply K|]. split; [apply unchanged_ns_values_l; apply K | eapply run_state_env; eauto].
+Qed.
+
+Lemma history_steps_l : forall W ops1 ops2 e h e1 h1 e2 h2,
+  forallb public_op (ops1 ++ ops2) = true ->
+  run_state as_written W ops1 e h = (e1, h1) -> run_state as_written W (ops1 ++ ops2) e h = (e2, h2) ->
+  values_kept h1 h2.
+Proof.
+  intros W ops1 ops2 e h e1 h1 e2 h2 Hp H1 H2.
+  rewrite run_state_app, H1 in H2. rewrite forallb_app in Hp. apply andb_true_iff in Hp.
+  eapply history_l; [apply Hp | exact H2].
+Qed.
+
+Lemma report_empty_l : forall h h' e,
+  values_kept h h' -> Forall (fun v => value FUEL h v <> None) e -> changed h h' e = [].
+Proof. intros. apply changed_nil; auto. Qed.
 
 (* ---- the attribute guards ---- *)
 Lemma world_names_ok : forallb (fun cs => forallb (fun pk => negb (setattr_allowed (fst pk))) (snd cs)) world_classes = true.
